@@ -116,3 +116,14 @@ RF = {
 }
 for _pid, _extra in RF.items():
     CLAIMS[_pid]["technique"] += "; " + _extra
+
+# round 17
+RH = {
+ "C04": "iterator-driven-fill rule over the typed arms of zeroIter/memsetIter",
+ "C05": "index-domain (tensor number vs block number) rule over the multi-iterator",
+ "C07": "float32/float64 option-handler mirror pair",
+ "C17": "iterator-driven-fill rule over the typed arms of memsetIter",
+ "C19": "field-freshness rule on the sparse clone (SSA)",
+}
+for _pid, _extra in RH.items():
+    CLAIMS[_pid]["technique"] += "; " + _extra
